@@ -1,6 +1,6 @@
 (* Wire glue for C18 (ops 18xx): universal value -> history model/spec functions.
    Evaluated both by vm_compute (cases.v) and by the extracted OCaml driver. *)
-From Fzf Require Import Prelude Val HistorySpec HistoryModel HistoryProcSpec HistoryProcModel.
+From Fzf Require Import Prelude Val HistorySpec HistoryModel HistoryProcSpec HistoryProcModel HistoryLoopSpec HistoryLoopModel.
 Open Scope Z_scope.
 
 Definition vfs (f : fs) : val := match f with None => VL [] | Some d => VL [vstr d] end.
@@ -77,6 +77,30 @@ Fixpoint d_psessions (paths : list str) (F : fsys) (ss : list psession) : list v
       end
   end.
 
+(* ---- the action loop of one run (HistoryLoopSpec / HistoryLoopModel) ---- *)
+Definition vending (e : ending) : val :=
+  VI (match e with EndAccept true => 0 | EndAccept false => 1 | EndPrintQuery => 2 | EndBecome => 3 | EndAbort => 4 end).
+(* a step: [0, s] edit, [1] previous, [2] next, [5, ending, has_item] attempt *)
+Definition as_pstep (v : val) : pstep sop :=
+  if as_int (arg v 0) =? 5 then PTry (as_ending (arg v 1)) (as_bool (arg v 2)) else PDo (as_sop v).
+Definition as_lsession (v : val) : lsession :=
+  mkL (as_layers (arg v 0)) (map as_pstep (as_list (arg v 1))) (as_ending (arg v 2)).
+Definition vsop (o : sop) : val :=
+  match o with Edit s => VL [VI 0; vstr s] | Prev => VL [VI 1] | Next => VL [VI 2] end.
+
+(* 1808: runs of the program, action by action: [[[path, file]...], [[layers, steps, ending]...]] ->
+   [[[file_after per path], config in effect, seen, query at the end, the ending that took place] per run] *)
+Fixpoint d_lsessions (paths : list str) (F : fsys) (ss : list lsession) : list val :=
+  match ss with
+  | [] => []
+  | s :: r =>
+      match run_lsession F s with
+      | Ok (F', c, seen, inp, e) =>
+          VL [VL (map (fun p => vfs (F' p)) paths); vcfg c; vstrs seen; vstr inp; vending e] :: d_lsessions paths F' r
+      | Err _ => [verr]
+      end
+  end.
+
 Definition dispatch_history (op : Z) (a : val) : option val :=
   if op =? 1801 then Some (VL (d_sessions (as_nat (arg a 0)) (as_fs (arg a 1)) (map as_session (as_list (arg a 2)))))
   else if op =? 1802 then Some (d_spec_stored (as_nat (arg a 0)) (as_fs (arg a 1)) (as_strs (arg a 2)))
@@ -91,4 +115,11 @@ Definition dispatch_history (op : Z) (a : val) : option val :=
   (* 1807: SPEC: [config, ending, query, path, entries before] -> entries after the run *)
   else if op =? 1807 then
     Some (vstrs (proc_step (as_cfg (arg a 0)) (as_ending (arg a 1)) (as_str (arg a 2)) (as_str (arg a 3)) (as_strs (arg a 4))))
+  else if op =? 1808 then
+    Some (VL (d_lsessions (map (fun e => as_str (arg e 0)) (as_list (arg a 0))) (fsys_of (as_list (arg a 0)))
+                          (map as_lsession (as_list (arg a 1)))))
+  (* 1809: SPEC: [steps, ending] -> [the plain steps the session amounts to, the ending it amounts to] *)
+  else if op =? 1809 then
+    let x := amounts_to (map as_pstep (as_list (arg a 0))) (as_ending (arg a 1)) in
+    Some (VL [VL (map vsop (fst x)); vending (snd x)])
   else None.
